@@ -642,3 +642,149 @@ def c18(run):
             else:
                 out.append(V("C18/no-progress", f"metaepoch {s['n']}: 0 evaluations although demes {[d['id'] for d in act if not d['hib']]} are active and awake"))
     return out
+
+
+# ------------------------------------------------------------------------------------- C20
+import random as _random
+import re as _re
+
+DEME_LINE = _re.compile(r"^(?P<prefix>[\s|└├-]*)(?P<cls>\w+) (?P<id>\S+?)(?P<mark> \*\*\* | )f\((?P<best>.*?)\) ~= (?P<fit>\S+)(?: sprout: \((?P<sprout>.*?)\);)? evals: (?P<evals>\d+) (?P<new>\(new_deme\))?$")
+
+
+def parse_tree(text):
+    out = []
+    for line in text.split("\n"):
+        if not line.strip():
+            continue
+        m = DEME_LINE.match(line)
+        out.append(m.groupdict() if m else {"raw": line})
+    return out
+
+
+def parse_summary(text):
+    d = {"levels": []}
+    head = text.split("\n\nLevel 1.", 1)[0]
+    for k, pat in (("metaepoch", r"Metaepoch count: (\d+)"), ("evals", r"Number of evaluations: (\d+)"), ("demes", r"Number of demes: (\d+)"), ("best", r"Best fitness: (\S+)")):
+        m = _re.search(pat, head)
+        d[k] = m.group(1) if m else None
+    for m in _re.finditer(r"\nLevel (\d+)\.\n(.*?)(?=\n\nLevel \d+\.|\n\n|\Z)", text, _re.S):
+        sec = m.group(2)
+        lv = {}
+        for k, pat in (("evals", r"Number of evaluations: (\d+)"), ("demes", r"Number of demes: (\d+)"), ("best", r"Best fitness: (\S+)")):
+            mm = _re.search(pat, sec)
+            lv[k] = mm.group(1) if mm else None
+        lv["none"] = "No demes available." in sec
+        d["levels"].append(lv)
+    return d
+
+
+def _state_digest(run, tree):
+    return (R.snap_tree(tree, run.order), sum(len(r.calls) for r in {id(r): r for r in run.objs["recs"]}.values()), np.random.get_state()[1].tobytes(), _random.getstate())
+
+
+def c20_boundary(state):
+    def on_boundary(run, tree):
+        mx = run.spec["maximize"]
+        viol = state["viol"]
+        before = _state_digest(run, tree)
+        s1 = tree.summary()
+        s2 = tree.summary()
+        t1 = tree.tree()
+        t2 = tree.tree()
+        if s1 != s2 or t1 != t2:
+            viol.append(V("C20/report-not-repeatable", f"boundary {tree.metaepoch_count}: summary()/tree() called twice give different text"))
+        def safe(f):
+            # an accessor that raises is compared by the exception it raises (same outcome twice)
+            try:
+                return f()
+            except Exception as e:  # noqa
+                state["accessor_exceptions"] = state.get("accessor_exceptions", 0) + 1
+                return ("raised", type(e).__name__)
+
+        def acc():
+            return (
+                safe(lambda: ind_key(tree.best_individual)),
+                safe(lambda: [ind_key(i) for i in tree.all_individuals]),
+                safe(lambda: [ind_key(i) for i in tree.r5s_solutions]),
+                [(d.id, safe(lambda: ind_key(d.best_individual)), safe(lambda: ind_key(d.best_current_individual)), safe(lambda: None if d.centroid is None else tuple(float(t) for t in d.centroid)), safe(lambda: tuple(sorted(d.best_fitness_by_metaepoch.items())))) for _, d in tree.all_demes],
+            )
+
+        acc1 = acc()
+        acc2 = acc()
+        if acc1 != acc2:
+            viol.append(V("C20/accessor-not-repeatable", f"boundary {tree.metaepoch_count}: a query accessor gives different answers when called twice"))
+        after = _state_digest(run, tree)
+        if after[1] != before[1]:
+            viol.append(V("C20/report-evaluated-objective", f"boundary {tree.metaepoch_count}: reporting/accessors invoked the objective {after[1]-before[1]} times"))
+        if after[0] != before[0]:
+            viol.append(V("C20/report-changed-state", f"boundary {tree.metaepoch_count}: reporting/accessors changed the observable state of the tree"))
+        if after[2] != before[2] or after[3] != before[3]:
+            viol.append(V("C20/report-consumed-randomness", f"boundary {tree.metaepoch_count}: reporting/accessors changed a global random generator state"))
+        # ---- agreement with the tree
+        snap = before[0]
+        demes = {d["id"]: d for d in snap["demes"]}
+        allf = [f for d in snap["demes"] for g in d["hist"] for _, f in g]
+        gbest = best_of(mx, allf) if allf else None
+        ps = parse_summary(s1)
+        want = {"metaepoch": str(snap["metaepoch"]), "evals": str(snap["n_evals"]), "demes": str(len(snap["demes"])), "best": f"{gbest:.4e}"}
+        for k, v in want.items():
+            if ps.get(k) != v:
+                viol.append(V("C20/summary-header", f"boundary {snap['metaepoch']}: summary reports {k}={ps.get(k)}, tree state says {v}"))
+        nlev = len(snap["levels"])
+        for l in range(nlev):
+            ds = [d for d in snap["demes"] if d["level"] == l]
+            if l >= len(ps["levels"]):
+                viol.append(V("C20/summary-level-missing", f"summary has no section for level {l+1}"))
+                continue
+            lv = ps["levels"][l]
+            if not ds:
+                if not lv["none"]:
+                    viol.append(V("C20/summary-level", f"level {l+1} has no demes but summary does not say so"))
+                continue
+            lf = [f for d in ds for g in d["hist"] for _, f in g]
+            w = {"evals": str(sum(d["n_evals"] for d in ds)), "demes": str(len(ds)), "best": f"{best_of(mx, lf):.4e}"}
+            for k, v in w.items():
+                if lv.get(k) != v:
+                    viol.append(V("C20/summary-level", f"boundary {snap['metaepoch']}: level {l+1} summary reports {k}={lv.get(k)}, tree state says {v}"))
+        lines = parse_tree(t1)
+        bad = [x for x in lines if "raw" in x]
+        if bad:
+            viol.append(V("C20/tree-line-format", f"unparseable tree() line: {bad[0]['raw'][:120]}"))
+        shown = [x for x in lines if "raw" not in x]
+        # expected lines: root, then depth-first every deme that has run >= 1 metaepoch (under displayed parents)
+        exp = []
+
+        def walk(did):
+            for c in demes[did]["children"]:
+                if c in demes and demes[c]["metaepochs"] >= 1:
+                    exp.append(c)
+                    walk(c)
+
+        exp.append("root")
+        walk("root")
+        got_ids = [x["id"] for x in shown]
+        if got_ids != exp:
+            viol.append(V("C20/tree-lines", f"boundary {snap['metaepoch']}: tree() shows demes {got_ids}, expected root + every deme that has run: {exp}"))
+        must = {d["id"] for d in snap["demes"] if d["id"] == "root" or d["metaepochs"] >= 1}
+        if set(got_ids) != must:
+            viol.append(V("C20/tree-lines", f"boundary {snap['metaepoch']}: displayed {sorted(got_ids)} but the demes that have run are {sorted(must)}"))
+        for x in shown:
+            d = demes.get(x["id"])
+            if d is None:
+                continue
+            if int(x["evals"]) != d["n_evals"]:
+                viol.append(V("C20/tree-evals", f"deme {x['id']}: line says evals: {x['evals']}, deme counter {d['n_evals']}"))
+            if x["cls"] != d["cls"]:
+                viol.append(V("C20/tree-class", f"deme {x['id']}: line says {x['cls']}, deme is a {d['cls']}"))
+            df = [f for g in d["hist"] for _, f in g]
+            is_best = bool(df) and best_of(mx, df) == gbest
+            if (x["mark"].strip() == "***") != is_best:
+                viol.append(V("C20/marker", f"boundary {snap['metaepoch']}: deme {x['id']} marker={x['mark'].strip()!r} but its best fitness {best_of(mx, df) if df else None} vs global best {gbest}"))
+            if df and x["fit"] != f"{best_of(mx, df):.2e}":
+                viol.append(V("C20/tree-fitness", f"deme {x['id']}: line shows {x['fit']}, deme best {best_of(mx, df):.2e}"))
+
+    return on_boundary
+
+
+def ind_key(i):
+    return None if i is None else (tuple(float(t) for t in i.genome), float(i.fitness))
